@@ -104,12 +104,24 @@ func TestC13_Restart(t *testing.T) {
 		path := filepath.Join(dir, fmt.Sprintf("app-%d-%d.gob", os.Getpid(), cnt))
 		a := newApp(g)
 		a.Gobpath = path
-		out1 := runBlocks(a, calls[:cut], fail)
-		_ = out1
-		votes := len(a.ConfigVoting.Votes) > 0 || len(a.DKGMap) > 0
-		if err := a.PersistToDisk(); err != nil {
-			fail("persist-error", "PersistToDisk: %v", err)
+		viaCommit := rapid.Bool().Draw(rt, "saveViaCommit")
+		if viaCommit {
+			// the way a running node saves: Commit decides by PersistMinDuration
+			runBlocks(a, calls[:cut-1], fail)
+			app.PersistMinDuration = 0
+			a.LastSaved = time.Time{}
+			runBlocks(a, calls[cut-1:cut], fail)
+			app.PersistMinDuration = 1000 * time.Hour
+			if _, err := os.Stat(path); err != nil {
+				fail("commit-did-not-save", "Commit with PersistMinDuration=0 wrote no state file: %v", err)
+			}
+		} else {
+			runBlocks(a, calls[:cut], fail)
+			if err := a.PersistToDisk(); err != nil {
+				fail("persist-error", "PersistToDisk: %v", err)
+			}
 		}
+		votes := len(a.ConfigVoting.Votes) > 0 || len(a.DKGMap) > 0
 		outA := runBlocks(a, calls[cut:], fail)
 		b, err := app.LoadShutterAppFromFile(path)
 		if err != nil {
@@ -134,6 +146,9 @@ func TestC13_Restart(t *testing.T) {
 		}
 		if s < c.Height {
 			labels = append(labels, "replayed-blocks")
+		}
+		if viaCommit {
+			labels = append(labels, "saved-by-commit")
 		}
 		rec.Case(fmt.Sprintf("%s|save@%d", c.DescString(), s), s < c.Height && votes, labels...)
 	})
